@@ -98,20 +98,20 @@ class Polygon(Region):
         # polygon must be completely contained in the image. It seems that the
         # code works fine if we make sure that the bottom-left corner of the
         # polygon's bounding box has non-negative coordinates.
+        # Vertices are converted to integer coordinates *before* shifting so
+        # that the rounding of a vertex does not depend on where the polygon
+        # lies relative to the origin.
+        rounded = list(map(_round_vertex, vertices))
         self._shiftx = 0
         self._shifty = 0
-        for vertex in vertices:
+        for vertex in rounded:
             x, y = vertex
             if x < self._shiftx:
                 self._shiftx = x
             if y < self._shifty:
                 self._shifty = y
-        v = [(i - self._shiftx, j - self._shifty) for i, j in vertices]
-
-        # convert to integer coordinates:
-        self._vertices = np.asarray(list(map(_round_vertex, v)))
-        self._shiftx = int(round(self._shiftx))
-        self._shifty = int(round(self._shifty))
+        self._vertices = np.asarray(
+            [(i - self._shiftx, j - self._shifty) for i, j in rounded])
 
         self._bbox = self._get_bounding_box()
         self._scan_line_range = \
@@ -393,5 +393,7 @@ def _cross(u, v):
 
 
 def _round_vertex(v):
+    # round to the nearest pixel center (pixel centers are at integers and
+    # a pixel covers [n - 0.5, n + 0.5), as in `gwcs.utils._toindex`)
     x, y = v
-    return (int(round(x)), int(round(y)))
+    return (int(np.floor(x + 0.5)), int(np.floor(y + 0.5)))
